@@ -709,6 +709,7 @@ func c12SharedSeq(g *Gen) {
 					timedOut = true
 				}
 				g.Count("shared-sequence-algorithm")
+				g.Returned()
 				msg := ""
 				if timedOut {
 					// an executor that never returns is judged by the schedule cases above; stop this probe
